@@ -12,6 +12,7 @@ mod gen;
 mod geom;
 mod hard;
 mod known;
+mod opgrammar;
 mod opt;
 mod probe;
 mod props;
